@@ -83,11 +83,11 @@ type world struct {
 	nAudits int
 
 	shadowSuspect bool // the trace shadow disagreed with Stat() on a visible scope
-	changed int // operations that changed the ledger
-	refused int // operations refused for lack of room
+	changed       int  // operations that changed the ledger
+	refused       int  // operations refused for lack of room
 
 	activeClients int // stratum C: clients with at least one admitted operation
-	sig     strings.Builder
+	sig           strings.Builder
 }
 
 const maxViolationsPerRun = 6
@@ -421,8 +421,8 @@ func (w *world) settle(ctx auditCtx, n *node, alts []hypothesis) readings {
 
 // operations on the real manager ------------------------------------------------------------------
 
-func (w *world) peerID(p int) peer.ID       { return w.cfg.peers[p] }
-func (w *world) protoID(q int) protocol.ID  { return w.cfg.protos[q] }
+func (w *world) peerID(p int) peer.ID      { return w.cfg.peers[p] }
+func (w *world) protoID(q int) protocol.ID { return w.cfg.protos[q] }
 func dirOf(in bool) network.Direction {
 	if in {
 		return network.DirInbound
